@@ -122,11 +122,22 @@ func (e *c13End) read(p []byte, packet bool) (int, error) {
 		}
 		n.cond.Wait()
 	}
-	m := copy(p, e.q[0])
-	if packet || m == len(e.q[0]) {
+	if packet {
+		m := copy(p, e.q[0])
 		e.q = e.q[1:]
-	} else {
-		e.q[0] = e.q[0][m:]
+		return m, nil
+	}
+	// a byte stream: everything that has arrived is handed over, as far as the buffer goes (so that
+	// the last data record and a following close_notify can reach the reader in one transport read)
+	m := 0
+	for m < len(p) && len(e.q) > 0 {
+		k := copy(p[m:], e.q[0])
+		m += k
+		if k == len(e.q[0]) {
+			e.q = e.q[1:]
+		} else {
+			e.q[0] = e.q[0][k:]
+		}
 	}
 	return m, nil
 }
@@ -241,6 +252,9 @@ type c13Case struct {
 	YieldPct int        `json:"yield_pct"`
 	Slow     []c13Slow  `json:"slow,omitempty"`
 	Gate     [2]int     `json:"gate"` // -1: none
+	// EarlyClose (duplex, stream calls): 1+side: that side calls Close as soon as its own writers are
+	// done, while the peer's readers may still be behind; the peer must still receive everything
+	EarlyClose int `json:"early_close,omitempty"`
 	Actors   []c13Actor `json:"actors"`
 }
 
@@ -611,6 +625,14 @@ func c13Run(c c13Case) (sig, msg string) {
 			}
 		}
 		rmu.Unlock()
+		if c.EarlyClose > 0 {
+			atomic.StoreInt32(&closing, 1)
+			closeAt.CompareAndSwap(nil, time.Now())
+			es := c.EarlyClose - 1
+			wgAll.Add(1)
+			go func() { defer wgAll.Done(); defer nw.tick(); conns[es].Close() }()
+			hasReader[es] = false // its own readers are cut off by its Close
+		}
 		last, lastAt := int64(-1), time.Now()
 		for {
 			okAll := true
@@ -677,8 +699,16 @@ func c13Run(c c13Case) (sig, msg string) {
 					post <- "Write after Close reported success"
 					return
 				}
-				if _, err := c13Read(conns[s], c.Dgram, make([]byte, 16)); err == nil {
-					post <- "Read after Close reported success"
+				// Read may still hand out data that was decrypted or buffered before Close (as crypto/tls
+				// does); it must not block and must end in an error once that is used up
+				ended := false
+				rb := make([]byte, 4096)
+				for i := 0; i < 200 && !ended; i++ {
+					_, err := c13Read(conns[s], c.Dgram, rb)
+					ended = err != nil
+				}
+				if !ended {
+					post <- "Read kept succeeding after Close (200 calls)"
 					return
 				}
 				conns[s].Close()
@@ -1040,7 +1070,20 @@ func c13GenDuplex(t *rapid.T) c13Case {
 			c.Actors = append(c.Actors, c13Actor{Side: side, Kind: "reader", Trig: c13GenTrig(t, 9), Buf: buf})
 		}
 	}
-	// at least one side must drive the handshake
+	// early close: a side whose peer writes nothing may close as soon as its own writers are done
+	if !c.Dgram && !c.Fail {
+		w := [2]int{}
+		for _, a := range c.Actors {
+			if a.Kind == "writer" {
+				w[a.Side]++
+			}
+		}
+		for side := 0; side < 2; side++ {
+			if w[side] > 0 && w[1-side] == 0 && c.EarlyClose == 0 && rapid.Bool().Draw(t, "earlyClose") {
+				c.EarlyClose = 1 + side
+			}
+		}
+	}
 	return c
 }
 
@@ -1077,8 +1120,15 @@ func c13GenClose(t *rapid.T) c13Case {
 	for i := 0; i < nCl; i++ {
 		c.Actors = append(c.Actors, c13Actor{Side: x, Kind: "closer", Trig: c13GenTrig(t, 12)})
 	}
-	// the peer: somebody drives its handshake and reads; the harness closes it at the end
+	// the peer: somebody drives its handshake and reads (1..3 readers); the harness closes it at the end
 	c.Actors = append(c.Actors, c13Actor{Side: 1 - x, Kind: "reader", Trig: "t0", Buf: 2048})
+	for i := rapid.IntRange(0, 2).Draw(t, "morePeerReaders"); i > 0; i-- {
+		buf := rapid.SampledFrom([]int{64, 2048, 40000}).Draw(t, "buf")
+		if c.Dgram {
+			buf = 2048
+		}
+		c.Actors = append(c.Actors, c13Actor{Side: 1 - x, Kind: "reader", Trig: c13GenTrig(t, 9), Buf: buf})
+	}
 	if rapid.Bool().Draw(t, "peerWrites") {
 		c.Actors = append(c.Actors, c13Actor{Side: 1 - x, Kind: "writer", Trig: c13GenTrig(t, 9), Sizes: c13GenSizes(t, c.Dgram)})
 	}
@@ -1131,6 +1181,9 @@ func c13Class(c c13Case) []string {
 	if len(c.Slow) > 0 {
 		cl = append(cl, "slow-transport-op")
 	}
+	if c.EarlyClose > 0 {
+		cl = append(cl, "early-close")
+	}
 	return cl
 }
 
@@ -1157,7 +1210,7 @@ func TestVF_C13_Duplex(t *testing.T) {
 }
 
 func TestVF_C13_Close(t *testing.T) {
-	rec := vfRec("C13", "C13b-close", "generated scenarios: 1..5 pending calls (Handshake, Read, Write, ConnectionState) on one side, started at generated points of the handshake or after it, a peer that may stall at its k-th transport write, back-pressure on the closing side's own writes, and 1..2 goroutines calling Close at a generated point; oracles: every call returns within "+c13Cap.String()+" of the first Close, later calls fail, whatever the peer received is a prefix of whole frames; built with -race; non-trivial = more than one goroutine on a side; distinct = the case")
+	rec := vfRec("C13", "C13b-close", "generated scenarios: 1..5 pending calls (Handshake, Read, Write, ConnectionState) on one side, started at generated points of the handshake or after it, a peer that may stall at its k-th transport write, back-pressure on the closing side's own writes, and 1..2 goroutines calling Close at a generated point; oracles: every call returns within "+c13Cap.String()+" of the first Close, a later Write fails and later Reads end in an error once buffered data is used up, whatever the peer received is a prefix of whole frames; built with -race; non-trivial = more than one goroutine on a side; distinct = the case")
 	vfRapid(t, rec, "close", vfN(300, 2400), func(t *rapid.T) { c13Check(t, rec, c13GenClose(t)) })
 }
 
